@@ -225,6 +225,12 @@ def st_Assign(ex, st, s, cx):
         if ty is not None:
             s2, r = new_empty(ex, st, ty)
             return f(s2, r)
+    if isinstance(v, ast.ListComp) and len(s.targets) == 1 and len(v.generators) == 1 and not v.generators[0].ifs:
+        ty = target_decl_type(ex, st, s.targets[0], cx)
+        if ty is not None and ty.kind == 'opt':
+            ty = ty.args[0]
+        if ty is not None and ty.kind == 'list':
+            return ex.bi.listcomp(st, v, cx, f, ety=ty.args[0])
     if isinstance(v, ast.ListComp) and len(s.targets) == 1 and (len(v.generators) > 1 or v.generators[0].ifs):
         # a nested / filtered comprehension is abstracted: some fresh list of the declared type, of any length and content
         ty = target_decl_type(ex, st, s.targets[0], cx)
@@ -843,6 +849,20 @@ def find_block(fn_node, where):
                     i0, i1 = lst.index(na), lst.index(nb)
                     return lst[i0 + (1 if excl else 0):i1 + 1]
         raise VCError(f'anchor-missing: loops of {where!r} are not in one statement list')
+    mt = re.fullmatch(r'from:(.+):(\d+)', where, flags=re.S)
+    if mt:
+        # <count> consecutive statements starting at the first statement whose source text starts with <prefix>
+        prefix, cnt = mt.group(1), int(mt.group(2))
+        for n in ast.walk(fn_node):
+            for fld in ('body', 'orelse', 'finalbody'):
+                lst = getattr(n, fld, None)
+                if isinstance(lst, list):
+                    for i_, st_ in enumerate(lst):
+                        if isinstance(st_, ast.stmt) and ast.unparse(st_).startswith(prefix):
+                            if i_ + cnt > len(lst):
+                                raise VCError(f'anchor-missing: fewer than {cnt} statements from {prefix!r}')
+                            return lst[i_:i_ + cnt]
+        raise VCError(f'anchor-missing: no statement starts with {prefix!r}')
     m = re.fullmatch(r'(?:loop\[([\d.]+)\])?(?:\.?(body))?(?:\[(\d*):(\d*)\])?', where)
     if not m:
         raise VCError(f'block locator {where!r}')
